@@ -3,12 +3,5 @@ NOTES = ("All checks: ./check <ID> --tier quick|thorough. Each run rebuilds the 
          "regenerates constant tables, rebuilds + axiom-audits the Lean property module, then runs the correspondence. "
          "Known findings: /verif/known_findings.json. See DESIGN.md.")
 NOT_YET = {}
-CLAIMED = {}
-CLAIMED["C19"] = dict(
-    text="Kernel-checked theorems over a model of BlockHeader::hash/validate/difficulty_target and Hash256::cmp: validate = spec "
-         "(int(hash) <= mantissa*256^(exp-3) and timestamp strictly above the median of the last <= 11) for all field values and "
-         "predecessor lists of any length; numeric ordering for all lengths; exponent range -> error, never panic. The model is tied "
-         "to the code by a differential run (all 256 exponents, target-adjacent hashes, median-adjacent timestamps).",
-    note="Trusted: Lean kernel; the model<->code tie is differential (bounded by the generators); SHA-256 is a parameter in theorems "
-         "and an independent Lean implementation in the driver.",
-)
+import props
+CLAIMED = props.CLAIMS
